@@ -49,7 +49,7 @@ def main():
         rep.mc_violation("C07_ball", r)
 
     rng = random.Random(core.seed() * 7919 + 7)
-    n = 600 if quick else 12000
+    n = 2400 if quick else 30000
     cases = []
     for i in range(n):
         S = rng.choice([1, 2, 2])
